@@ -217,10 +217,6 @@ def headerVals (d : Doc2 Json) : List (Param2 Json) :=
   d.responses.flatMap (fun (_, r) => ofR r) ++
   d.paths.flatMap (fun p => p.ops.flatMap (fun o => o.responses.flatMap (fun (_, r) => ofR r)))
 
-def respLosesSchema (produces : List String) : RRef2 Json → Bool
-  | .ref _ _ => false
-  | .val r => r.schema.isSome && !(effProduces produces).contains "application/json"
-
 def exclusions (d : Doc2 Json) : List String :=
   let ss := allSchemas d
   (if ss.any addlImpure then ["AddlSubschemaUnconverted"] else []) ++
@@ -228,8 +224,6 @@ def exclusions (d : Doc2 Json) : List String :=
       ((opParams d) ++ (sharedVals d) ++ pathVals d ++ headerVals d).any (fun p => p.loc != "formData" && p.loc != "body" &&
         (p.cons.ty == some "file" || (p.cons.ty == some "string" && p.cons.fmt == some "binary")))
    then ["BinaryString"] else []) ++
-  (if (opParams d).any (fun p => p.loc == "formData" && p.required) then ["FormRequiredLost"] else []) ++
-  (if (opParams d).any (fun p => p.loc == "formData" && p.cons.fmt.isSome && p.cons.ty != some "file") then ["FormFormatLost"] else []) ++
   (if (sharedVals d).any (fun p => p.loc == "formData" && p.cons.ty != some "file") then ["SharedFormParamNotFile"] else []) ++
   (if d.params.any (fun (k, p) => match p with
         | .val q => q.loc == "formData" && (alookup k d.defs).isSome
@@ -237,24 +231,22 @@ def exclusions (d : Doc2 Json) : List String :=
    then ["SharedFormParamDefClash"] else []) ++
   (if (opParams d ++ sharedVals d).any (fun p => p.loc == "body" && p.schema.isNone) then ["BodyWithoutSchema"] else []) ++
   (if d.paths.any (fun p => p.ops.any (fun o =>
+        -- since c26cd6a only a request body without x-originalParamName needs a free name: what formDataBody
+        -- builds from form parameters (inline or shared), or a body parameter without a name
         o.params.any (fun q => match q with
-          | .val v => v.loc == "body" || v.loc == "formData"
-          | .ref _ n => match alookup n d.params with | some (.val v) => v.loc == "body" || v.loc == "formData" | _ => false) &&
+          | .val v => v.loc == "formData" || (v.loc == "body" && v.name == "")
+          | .ref _ n => match alookup n d.params with | some (.val v) => v.loc == "formData" | _ => false) &&
         ["body", "requestBody"].all (fun nm => o.params.any (fun q => match q with
           | .val v => v.loc != "body" && v.loc != "formData" && v.name == nm
           | .ref _ n => match alookup n d.params with | some (.val v) => v.loc != "body" && v.loc != "formData" && v.name == nm | _ => false))))
    then ["BodyNameClash"] else []) ++
-  (if d.responses.any (fun (_, r) => respLosesSchema d.produces r) ||
-      d.paths.any (fun p => p.ops.any (fun o => o.responses.any (fun (_, r) => respLosesSchema o.produces r)))
-   then ["ResponseSchemaNonJSON"] else []) ++
   (if d.defs.any (fun (k, _) => !identOK k) || d.params.any (fun (k, _) => !identOK k) ||
       d.responses.any (fun (k, _) => !identOK k) || d.secs.any (fun (k, _) => !identOK k)
    then ["BadComponentName"] else []) ++
   (if (d.consumes.filter (fun m => !isFormMime m)).length ≥ 2 &&
       (sharedVals d).any (fun p => p.loc == "body" && (p.schema.map hasXnull).getD false)
    then ["SharedBodyNullableLost"] else []) ++
-  (if d.loc.host == "" && (d.loc.basePath != "" || !d.loc.schemes.isEmpty) then ["BasePathWithoutHost"] else []) ++
-  (if d.loc.host != "" && d.loc.schemes.any (fun s => s != "http" && s != "https") then ["SchemeNotHttp"] else [])
+  (if d.loc.host == "" && (d.loc.basePath != "" || !d.loc.schemes.isEmpty) then ["BasePathWithoutHost"] else [])
 
 partial def schBranches (s : Sch Json) : List String :=
   match s with
@@ -301,8 +293,20 @@ def branches (d : Doc2 Json) (excl : List String) : List String :=
     (if docBody d then ["frag.docBody"] else []) ++ (if docBodyBack d then ["frag.docBodyBack"] else []) ++
     (if docInputs d then ["frag.docInputs"] else []) ++ (if docInputs d && !docBody d then ["frag.docInputs.only"] else []) ++
     (if docBody d && !docSimple d then ["frag.docBody.only"] else []) ++
-    (if docBodyBack d && !docSimpleBack d then ["frag.docBodyBack.only"] else [])
+    (if docBodyBack d && !docSimpleBack d then ["frag.docBodyBack.only"] else []) ++
+    (if docInputsBack d then ["frag.docInputsBack"] else []) ++
+    (if docInputsBack d && !docBodyBack d then ["frag.docInputsBack.only"] else [])
   raw.eraseDups
+
+/-- the kinds of value the extension `x-nullable` takes anywhere in the document (only the boolean `true` is nullability) -/
+partial def xnullKinds (j : Json) : List String :=
+  match j with
+  | .obj kvs => kvs.foldl (init := []) (fun acc k v =>
+      acc ++ (if k == "x-nullable" then
+                [match v with | .bool true => "s.xnullable.true" | .bool false => "s.xnullable.false" | _ => "s.xnullable.nonbool"]
+              else []) ++ xnullKinds v)
+  | .arr a => a.toList.flatMap xnullKinds
+  | _ => []
 
 def handle (j : Json) : Json :=
   let d := parseDoc (getD j "doc" Json.null)
@@ -323,6 +327,6 @@ def handle (j : Json) : Json :=
     ("model", model),
     ("spec", jobj [("toV3", "ok"), ("validates", Json.bool true), ("fromV3", "ok"), ("api", apiJson spec), ("badRefs", jstrs [])]),
     ("excl", jstrs excl),
-    ("branches", jstrs (branches d excl))]
+    ("branches", jstrs (branches d excl ++ (xnullKinds (getD j "doc" Json.null)).eraseDups))]
 
 end KinModel.Drv.C17
